@@ -78,6 +78,17 @@ def traitsOk (weq : W → W → Bool) (p1 p2 c : Genome W) : Bool :=
   (List.zip c.traits (List.zip p1.traits p2.traits)).all fun (t, a, b) =>
     t.id == a.id && listEqBy weq t.params (List.zipWith avg a.params b.params)
 
+/-- clause 3, multipoint-average only: EVERY gene both parents carry is averaged there, so its weight must be the mean - a
+    parent's own weight is not enough (single point averages only at the crossing point, which the child does not reveal).
+    Evaluated by the driver on the implementation's child next to `check`; for the model it follows from
+    `C04.mateMultipointAvg_spec` (exact weights), it is not part of the proved `mate*_check` chain. -/
+def avgAllMatchedOk (weq : W → W → Bool) (m : Method) (p1 p2 c : Genome W) : Bool :=
+  m != .multipointAvg ||
+  c.genes.all fun x =>
+    match p1.genes.find? (·.inn == x.inn), p2.genes.find? (·.inn == x.inn) with
+    | some a, some b => weq (avg a.w b.w) x.w
+    | _, _ => true
+
 def check (weq : W → W → Bool) (m : Method) (p1 p2 c : Genome W) (f1 f2 : W) : Option String :=
   if !structureOk p1 p2 c then some "gene-not-from-a-parent-or-duplicated"
   else if !weightsOk weq m p1 p2 c then some "weight-neither-inherited-nor-mean"
